@@ -252,6 +252,17 @@ def _prime_to_while_true(loop, before, norm):
     if loop.orelse or len(loop.body) < 2 or (isinstance(loop.test, ast.Constant)):
         return
     last0 = loop.body[-1]
+    if isinstance(last0, ast.AugAssign) and isinstance(last0.target, ast.Name):
+        # the same with an update in place: x op= E; while x: BODY; x op= E  (the priming update right before the loop)
+        x = last0.target.id
+        if not any(isinstance(t, ast.Name) and t.id == x for t in ast.walk(loop.test)) or any(isinstance(t, ast.NamedExpr) for t in ast.walk(loop.test)) or \
+                any(isinstance(n, ast.Continue) for s in loop.body for n in ast.walk(s)) or not before or ast.dump(before[-1]) != ast.dump(last0):
+            return
+        prime = before.pop()
+        brk = ast.copy_location(ast.If(test=norm.visit(ast.UnaryOp(op=ast.Not(), operand=loop.test)), body=[ast.Break()], orelse=[]), loop)
+        loop.body = norm._block([prime, brk] + loop.body[:-1])
+        loop.test = ast.copy_location(ast.Constant(value=True), loop.test)
+        return
     if not (isinstance(last0, ast.Assign) and len(last0.targets) == 1 and isinstance(last0.targets[0], ast.Name)):
         return
     x = last0.targets[0].id
